@@ -156,3 +156,50 @@ Proof. exists [true]. reflexivity. Qed.
 
 Lemma prologue_today_ok : prologue_ok prologue_today = true.
 Proof. reflexivity. Qed.
+
+(* ---- evaluating in batches = evaluating every row, when the plan covers the rows ------------------------ *)
+Lemma map_nth_seq : forall A B (d : A) (f : A -> B) (l : list A),
+  map f l = map (fun i => f (nth i l d)) (seq 0 (List.length l)).
+Proof.
+  intros A B d f l. induction l as [|x r IH]; simpl; [reflexivity|].
+  f_equal. rewrite IH. rewrite <- seq_shift, map_map. reflexivity.
+Qed.
+
+Lemma batch_eval_covered : forall A B (d : A) (f : A -> B) g plan (l : list A),
+  (forall i, i < List.length l -> covered plan i = true) ->
+  batch_eval d f g plan l = map f l.
+Proof.
+  intros A B d f g plan l H. unfold batch_eval. rewrite (map_nth_seq A B d f l).
+  apply map_ext_in. intros i Hi. apply in_seq in Hi. rewrite H; [reflexivity|lia].
+Qed.
+
+Lemma covered_slices : forall b m i, 0 < b -> i / b < m ->
+  covered (map (fun j => (j * b, b)) (seq 0 m)) i = true.
+Proof.
+  intros b m i Hb Hm. unfold covered. apply existsb_exists. exists ((i / b) * b, b). split.
+  - apply in_map_iff. exists (i / b). split; [reflexivity|]. apply in_seq. lia.
+  - simpl. apply andb_true_intro. split.
+    + apply Nat.leb_le. rewrite Nat.mul_comm. apply Nat.mul_div_le. lia.
+    + apply Nat.ltb_lt. pose proof (Nat.div_mod i b ltac:(lia)) as E.
+      pose proof (Nat.mod_upper_bound i b ltac:(lia)). lia.
+Qed.
+
+Theorem bplan_sound : forall bp, bplan_ok bp = true ->
+  forall A B (d : A) (f : A -> B) (garbage : nat -> B) (l : list A),
+    batch_eval d f garbage (plan_of bp (List.length l)) l = map f l.
+Proof.
+  intros bp Hok A B d f g l. apply batch_eval_covered. intros i Hi.
+  destruct bp as [|b|b]; simpl in Hok; try discriminate.
+  - unfold covered, plan_of. apply existsb_exists. exists (0, List.length l). split; [left; reflexivity|].
+    apply andb_true_intro. split; [apply Nat.leb_le; simpl; lia|apply Nat.ltb_lt; simpl; lia].
+  - apply Nat.ltb_lt in Hok. simpl. apply covered_slices; [exact Hok|].
+    apply Nat.div_lt_upper_bound; [lia|].
+    pose proof (Nat.div_mod (List.length l + b - 1) b ltac:(lia)) as E.
+    pose proof (Nat.mod_upper_bound (List.length l + b - 1) b ltac:(lia)). nia.
+Qed.
+
+(* max(n // b, 1) batches: above b rows the tail after the last full batch is never written *)
+Lemma floor_batches_refuted :
+  exists (l : list nat), batch_eval 0 (fun x => x + 100) (fun _ => 0) (plan_of (FloorBatches 2) (List.length l)) l
+                         <> map (fun x => x + 100) l.
+Proof. exists [1; 2; 3; 4; 5]. vm_compute. discriminate. Qed.
